@@ -198,7 +198,20 @@ LoopConds == {<<Each("v", a, <<If(<<Br(c1, <<H("F")>>), Br(c2, <<H("L")>>)>>, <<
              \cup {<<Each("v", Var("ar"), <<P(Tern(LoopF("first"), StrL("F"), Tern(LoopF("last"), StrL("L"), StrL("-"))))>>, NoElse, 1)>>,
                    <<For(Assign("i", IntL(0), 1), Bin("<", Var("i"), IntL(3)), Post("++", Var("i")),
                          <<If(<<Br(Idx(Var("ar"), Var("i")), <<P(Var("i"))>>), Br(Bin("==", Var("i"), IntL(1)), <<H("one")>>)>>, <<H("-")>>, 1)>>, NoElse, 1)>>}
-EmptyBodies == ParenText \cup LoopConds \cup
+\* an @if chain nested in the body of a later @elseif of another chain (each chain keeps its own branches)
+Chain(c1, c2, c3, b3) == If(<<Br(c1, <<H("A")>>), Br(c2, <<H("B")>>), Br(c3, b3)>>, <<H("E")>>, 1)
+NestedChains == {<<H("<"), Chain(c1, c2, c3, <<H("c"), If(<<Br(d1, <<H("D")>>), Br(d2, <<H("F")>>)>>, e, 1)>>), H(">")>> :
+                   c1 \in {BoolL(TRUE), BoolL(FALSE)}, c2 \in {BoolL(TRUE), BoolL(FALSE)}, c3 \in {BoolL(TRUE), BoolL(FALSE)},
+                   d1 \in {BoolL(TRUE), BoolL(FALSE)}, d2 \in {BoolL(TRUE), BoolL(FALSE)}, e \in {NoElse, <<H("G")>>}}
+                \cup {<<If(<<Br(BoolL(FALSE), <<H("A")>>), Br(c2, <<Chain(BoolL(FALSE), d1, d2, <<H("x")>>)>>), Br(c3, <<H("C")>>)>>, NoElse, 1)>> :
+                   c2 \in {BoolL(TRUE), BoolL(FALSE)}, c3 \in {BoolL(TRUE), BoolL(FALSE)}, d1 \in {BoolL(TRUE), BoolL(FALSE)}, d2 \in {BoolL(TRUE), BoolL(FALSE)}}
+\* the loop object read only inside index brackets, a call's arguments, an object literal
+LoopInIndex == {<<Each("v", Var("ar"), <<P(Idx(Var("ar"), LoopF("index"))), H(",")>>, NoElse, 1)>>,
+                <<Each("v", Var("ar"), <<P(Idx(ArrL(<<StrL("a"), StrL("b"), StrL("c")>>), LoopF("index")))>>, NoElse, 1)>>,
+                <<Each("w", ArrL(<<IntL(7), IntL(8)>>), <<Each("v", Var("ar"), <<P(Idx(Var("ar"), LoopF("index")))>>, NoElse, 1), P(Idx(Var("ar"), LoopF("index"))), H(";")>>, NoElse, 1)>>,
+                <<Each("v", Var("ar"), <<P(Dot(ObjL(<<[key |-> "k", ex |-> LoopF("iter")]>>), "k"))>>, NoElse, 1)>>,
+                <<Each("v", Var("ar"), <<P(Tern(BoolL(TRUE), Idx(ArrL(<<LoopF("first"), LoopF("last")>>), IntL(1)), IntL(0)))>>, NoElse, 1)>>}
+EmptyBodies == ParenText \cup LoopConds \cup NestedChains \cup LoopInIndex \cup
                {<<H("a"), If(<<Br(c1, b1)>>, e, 1), H("z")>> : c1 \in {BoolL(TRUE), BoolL(FALSE)}, b1 \in {<<>>, <<H("[1]")>>}, e \in {NoElse, <<>>, <<H("[e]")>>}}
           \cup {<<H("a"), If(<<Br(c1, b1), Br(c2, b2)>>, e, 1), H("z")>> : c1 \in {BoolL(TRUE), BoolL(FALSE)}, c2 \in {BoolL(TRUE), BoolL(FALSE)},
                                                                        b1 \in {<<>>, <<H("[1]")>>}, b2 \in {<<>>, <<H("[2]")>>}, e \in {NoElse, <<>>, <<H("[e]")>>}}
